@@ -1,15 +1,19 @@
 // Correspondence / exploration harness for C05: the REAL Transport teardown handshake (transport_impl.hpp: ParkGuard/FlushGuard,
-// setTeardownFence, teardownWaitOut, performTeardown, ~Transport incl. the I/O-thread self-destruct branch, Transport::stop) with
-// application threads parked in the REAL receiveSync / connectSync / setReadMode flush, over a scripted engine whose stop()
+// FlushFrame, setTeardownFence, teardownWaitOut, performTeardown, all three branches of ~Transport — ordinary thread, I/O thread
+// inside a callback, flusher inside its data callback —, Transport::stop, the I/O-thread guards of the synchronous operations)
+// with application threads parked in the REAL receiveSync / connectSync / setReadMode flush, over a scripted engine whose stop()
 // behaves like TcpEngine::stop (CAS, shutdown drain with onClose per live session on the I/O thread, join).
 //   `sched …`  a 3-8 thread program under DetSched; the answer is the sequence of model steps (Model/Teardown.lean) the run
 //              performed with what the implementation was observed to do in each.  Built with ASan: touching a destroyed Impl aborts.
-//   `storm …`  (no DetSched) real TcpEngine on loopback: start/stop/destroy storms with concurrent addListener/connect/send/close and
-//              parked sync calls; only schedule-independent safety facts are checked (every call returns, definite results, no callback
-//              after stop() returned); ASan/TSan builds are the failing-input search (DESIGN §7 C05), not the decision.
+//   `storm …`  (no DetSched) real TcpEngine / UdpEngine on loopback: rounds of stop, destruction under parked calls, stop/start
+//              cycles and sole-owner self-destruction inside a close callback on the real I/O thread, with concurrent
+//              addListener/connect/send/close and parked sync calls; only schedule-independent safety facts are checked (every call
+//              returns, definite results, no callback after stop() returned, a receiver parked before an I/O-thread self-destruct
+//              is notified, Impl is deleted by the thread epilogue); ASan/TSan builds are the failing-input search (DESIGN §7 C05).
+//   `cstorm …` connect() storms against stop(); `latch tcp|udp` deterministic windows inside the shutdown drain.
 #include "tsync_common.hpp"
 #ifdef TSYNC_NO_DETSCHED
-// ThreadSanitizer build: DetSched is not linked (it and TSan both intercept pthread_*); only the `storm` op is available
+// ThreadSanitizer build: DetSched is not linked (it and TSan both intercept pthread_*); only the storm ops are available
 namespace ds {
 bool active() { return false; }
 int self() { return -1; }
@@ -31,16 +35,29 @@ struct World
   bool sched = false;
   std::atomic<bool> destroyed{false};
   SessionId selfDestructOn = 0;      // the close callback of this session drops the last reference (on the I/O thread)
+  SessionId flushSelfDestructOn = 0; // the data callback of the flush of this session drops the last reference (on the flusher)
+  SessionId probeOn = 0;             // the close callback of this session calls every synchronous operation (I/O-thread guards)
+  bool orphaned = false;             // ~Transport ran inside a flush callback: Impl is deleted when that flush unwinds
+  std::atomic<bool> stopDone{false}; // a stop() issued by the program has returned
+  std::map<SessionId, int> flushIdx; // flusher thread index per flushed session
   int cbYields = 0;
 };
 World* g = nullptr;
 
-struct TdEngine : vh::FakeEngine
+// what stop() and the I/O thread synchronise on lives OUTSIDE the engine object, as the kernel thread that `_loop.join()` waits
+// for does: in the out-of-contract program `drainsd` the engine is deleted by the I/O thread's epilogue while a stopper is still
+// inside stop()
+struct EngSync
 {
   std::mutex em;
   std::condition_variable ecv;
-  std::atomic<bool> run{false};
   bool ioExited = false;
+};
+
+struct TdEngine : vh::FakeEngine
+{
+  std::shared_ptr<EngSync> sy = std::make_shared<EngSync>();
+  std::atomic<bool> run{false};
   std::thread::id ioId{};
   std::vector<SessionId> live;                // sessions the engine has open (closed in this order by the shutdown drain)
   std::function<void()> deleter;
@@ -53,11 +70,12 @@ struct TdEngine : vh::FakeEngine
     bool exp = true;
     if (!run.compare_exchange_strong(exp, false)) return;          // like TcpEngine::stop: a CAS no-op when already stopped
     if (g && g->sched) mark('K', "engine.stop");
-    std::unique_lock<std::mutex> lk(em);
-    ecv.notify_all();                                               // "enqueue(Shutdown)"
-    ecv.wait(lk, [this] { return ioExited; });                      // "_loop.join()"
+    std::shared_ptr<EngSync> s = sy;
+    std::unique_lock<std::mutex> lk(s->em);
+    s->ecv.notify_all();                                            // "enqueue(Shutdown)"
+    s->ecv.wait(lk, [&s] { return s->ioExited; });                  // "_loop.join()"
   }
-  void detachForTermination() override { run = false; std::lock_guard<std::mutex> lk(em); ecv.notify_all(); }
+  void detachForTermination() override { run = false; std::lock_guard<std::mutex> lk(sy->em); sy->ecv.notify_all(); }
   void scheduleSelfDestruct(std::function<void()> d) override { deleter = std::move(d); }
   ConnectResult connect(const std::string&, std::uint16_t, TlsMode) override
   {
@@ -107,6 +125,31 @@ void waitAllInside()
   }
 }
 
+// every synchronous operation called from a callback on the I/O thread must be refused by a throw, whatever `_running` is
+void probeGuards(World* w, SessionId sid)
+{
+  Transport* t = w->t.get();
+  if (!t) return;
+  const char* names[4] = {"connectSync", "receiveSync", "sendSync", "setReadMode"};
+  for (int k = 0; k < 4; ++k)
+  {
+    bool threw = false;
+    mark('B', "probe");
+    try
+    {
+      std::uint8_t b[4] = {1, 2, 3, 4};
+      std::size_t n = 4;
+      if (k == 0) (void)t->connectSync("127.0.0.1", 9, TlsMode::None, std::chrono::milliseconds(20));
+      else if (k == 1) (void)t->receiveSync(sid + 700, b, n, std::chrono::milliseconds(20));
+      else if (k == 2) (void)t->sendSync(sid, iora::core::BufferView{b, 4}, std::chrono::milliseconds(20));
+      else (void)t->setReadMode(sid + 700, ReadMode::Async);
+    }
+    catch (const std::logic_error&) { threw = true; }
+    mark('E', "-");
+    mark('K', std::string("probe:") + names[k] + (threw ? ":refused" : ":entered"));
+  }
+}
+
 void fireClose(SessionId sid)
 {
   auto& lv = g->e->live;
@@ -118,13 +161,15 @@ void ioThread(const std::vector<std::string>& ops)
 {
   TdEngine* e = g->e;       // the engine outlives the Transport wrapper on every path until the very end of this function
   World* w = g;
+  std::shared_ptr<EngSync> sy = e->sy;
   for (auto& op : ops)
   {
     if (!e->run.load()) break;
     u64 a = 0;
-    if (op[0] == 'c' && vh::parseNat(op.substr(2), a))
+    if ((op[0] == 'c' || op[0] == 'g') && vh::parseNat(op.substr(2), a))
     {
       if (std::find(e->live.begin(), e->live.end(), a) == e->live.end()) continue;
+      if (op[0] == 'g') w->probeOn = a;
       mark('B', "ioclose " + std::to_string(a));
       fireClose(a);
       mark('E', "-");
@@ -153,19 +198,21 @@ void ioThread(const std::vector<std::string>& ops)
     else if (op == "w")
     {
       // idle until a shutdown is requested (or for a while)
-      std::unique_lock<std::mutex> lk(e->em);
-      e->ecv.wait_for(lk, std::chrono::milliseconds(5), [e] { return !e->run.load(); });
+      std::unique_lock<std::mutex> lk(sy->em);
+      sy->ecv.wait_for(lk, std::chrono::milliseconds(5), [e] { return !e->run.load(); });
     }
+    // `X:<sid>` / `G:<sid>` take effect in the drain loop below
   }
   // wait for the shutdown request
   {
-    std::unique_lock<std::mutex> lk(e->em);
-    e->ecv.wait(lk, [e] { return !e->run.load(); });
+    std::unique_lock<std::mutex> lk(sy->em);
+    sy->ecv.wait(lk, [e] { return !e->run.load(); });
   }
   // shutdown drain: onClose for every session still open, then terminate; the self-destruct deleter runs last
   while (!e->live.empty())
   {
     SessionId sid = e->live.front();
+    if (w->selfDestructOn == sid && w->t) waitAllInside();
     mark('B', "iodrain " + std::to_string(sid));
     fireClose(sid);
     mark('E', "-");
@@ -174,9 +221,9 @@ void ioThread(const std::vector<std::string>& ops)
   std::function<void()> del;
   del.swap(e->deleter);
   {
-    std::lock_guard<std::mutex> lk(e->em);
-    e->ioExited = true;
-    e->ecv.notify_all();
+    std::lock_guard<std::mutex> lk(sy->em);
+    sy->ioExited = true;
+    sy->ecv.notify_all();
   }
   if (del)
   {
@@ -210,17 +257,25 @@ void appThread(const std::vector<std::string>& ops, int idx)
       g_returned++;
       mark('E', "ret:" + std::to_string(idx) + ":" + (r.isOk() ? std::string("completed") : resName(r.error().code)));
     }
-    else if (p[0] == "m" && p.size() == 2 && vh::parseNat(p[1], a))
+    else if ((p[0] == "m" || p[0] == "M") && p.size() == 2 && vh::parseNat(p[1], a))
     {
+      // `M`: the data callback of this flush releases the sole owner (FC05a)
+      World* w = g;
+      w->flushIdx[a] = idx;
+      if (p[0] == "M") w->flushSelfDestructOn = a;
       mark('B', "flush " + std::to_string(idx));
-      bool ok = g->t.get()->setReadMode(a, ReadMode::Async);
+      bool ok = w->t.get()->setReadMode(a, ReadMode::Async);
       g_returned++;
-      mark('E', "ret:" + std::to_string(idx) + ":flushed:" + (ok ? "1" : "0"));
+      std::string tail;
+      if (w->orphaned && !w->destroyed.load()) { w->destroyed = true; tail = ";destroyed"; }   // the flush frame deleted Impl while unwinding
+      mark('E', "ret:" + std::to_string(idx) + ":flushed:" + (ok ? "1" : "0") + tail);
     }
     else if (p[0] == "D")
     {
       // drop the last reference from this (non-I/O) thread once nobody is about to begin a call
+      if (!g->t) continue;
       waitAllInside();
+      if (!g->t) continue;
       mark('B', "destroy");
       std::shared_ptr<Transport> last = std::move(g->t);
       last.reset();
@@ -229,8 +284,11 @@ void appThread(const std::vector<std::string>& ops, int idx)
     }
     else if (p[0] == "S")
     {
+      Transport* raw = g->t.get();
+      if (!raw) continue;
       mark('B', "stop");
-      g->t.get()->stop();
+      raw->stop();
+      g->stopDone = true;
       mark('E', "stopReturned");
     }
     else if (p[0] == "F")
@@ -241,6 +299,7 @@ void appThread(const std::vector<std::string>& ops, int idx)
     }
     else if (p[0] == "y") ds::yield_point("y");
     else if (p[0] == "W") waitAllInside();
+    else if (p[0] == "P") { for (int k = 0; k < 4000 && !g->stopDone.load(); ++k) ds::yield_point("wait-stop"); }   // after the program's stop() has returned
     else if (p[0] == "Z")
     {
       // a late caller: wait until teardown has set the fence
@@ -292,12 +351,36 @@ std::string runSched(const std::vector<std::string>& t)
   w->impl = w->t->_impl.get();
   w->t->start();
   w->cbYields = static_cast<int>(cby);
-  w->t->onData([w](SessionId, iora::core::BufferView, std::chrono::steady_clock::time_point) {
+  for (auto& op : prog.threads[0])
+  {
+    u64 a = 0;
+    if (op.size() > 2 && op[1] == ':' && vh::parseNat(op.substr(2), a))
+    {
+      if (op[0] == 'X') w->selfDestructOn = a;    // released inside the close callback the shutdown drain fires for this session
+      if (op[0] == 'G') w->probeOn = a;           // the guards are probed inside that close callback
+    }
+  }
+  w->t->onData([w](SessionId sid, iora::core::BufferView, std::chrono::steady_clock::time_point) {
     mark('C', "cbdata");
     for (int k = 0; k < w->cbYields; ++k) ds::yield_point("in-data-callback");
+    if (w->flushSelfDestructOn == sid && w->t)
+    {
+      // the sole owner releases the transport inside the data callback of its own flush (on the flushing thread)
+      mark('B', "poll");            // the harness's own polling of the counters is not a step of the flush
+      waitAllInside();
+      mark('E', "-");
+      mark('B', "flushdestroy " + std::to_string(w->flushIdx[sid]));
+      std::shared_ptr<Transport> last = std::move(w->t);
+      last.reset();
+      w->orphaned = true;
+      mark('E', "-");
+      return;                       // no callback-return step: the thread goes on as the owner of Impl
+    }
+    mark('C', "cbend");
   });
   w->t->onClose([w](SessionId sid, const TransportErrorInfo&) {
     mark('C', "gclose:" + std::to_string(sid));
+    if (w->probeOn == sid) probeGuards(w, sid);
     if (w->selfDestructOn == sid && w->t)
     {
       mark('B', "selfdestruct");
@@ -316,7 +399,7 @@ std::string runSched(const std::vector<std::string>& t)
   g_returned = 0;
   g_napps = 0;
   for (std::size_t i = 1; i < prog.threads.size(); ++i)
-    for (auto& op : prog.threads[i]) if (op[0] == 'r' || op[0] == 'k' || op[0] == 'm') g_napps++;
+    for (auto& op : prog.threads[i]) if (op[0] == 'r' || op[0] == 'k' || op[0] == 'm' || op[0] == 'M') g_napps++;
   marks().clear();
   w->sched = true;
   ds::Options opt;
@@ -337,9 +420,7 @@ std::string runSched(const std::vector<std::string>& t)
     if (!vh::parseNat(t[1], seed)) return "bad-op";
     ds::init(static_cast<std::uint64_t>(seed));
   }
-  int iSyncIdxHolder = -1;
   void* syncHandle = w->impl->syncMutex.native_handle();
-  void* tdCvHandle = w->impl->teardownCv.native_handle();
   bool ok = ds::run([&] {
     std::thread io([&] { w->e->ioId = std::this_thread::get_id(); ioThread(prog.threads[0]); });
     std::vector<std::thread> th;
@@ -357,20 +438,23 @@ std::string runSched(const std::vector<std::string>& t)
     }
     io.join();
   });
-  (void)iSyncIdxHolder;
   w->sched = false;
   std::string status = ok ? "ok" : ds::deadlocked() ? "deadlock" : ds::stepLimit() ? "steplimit" : "diverged";
   int iSync = ds::object_index(syncHandle);
-  int iTdCv = ds::object_index(tdCvHandle);
   // ---- merge marks and DetSched events into model steps
   struct Cur { std::string kind; std::vector<std::string> args; bool active = false; long last = -1; int nlock = 0; std::string pendingObs; bool sd = false; };
-  std::map<int, std::vector<Cur>> stack;     // per thread: ops can nest (self-destruct inside a close handler)
+  std::map<int, std::vector<Cur>> stack;     // per thread: ops can nest (self-destruct inside a close handler / a data callback)
   std::vector<StepLine> steps;
+  std::vector<char> byTimeoutChoice;          // per step: a `wake` whose wake-up was the scheduler's TIMEOUT action for that sleeper
+  std::map<int, bool> timeoutWoke;            // per thread: the scheduler took TIMEOUT for it since its last WAIT
+  bool curByTimeout = false;
   const auto& tr = ds::trace();
   const auto& ms = marks();
   std::size_t mi = 0;
   auto push = [&](int tid, const std::string& st, const std::string& obs) {
     steps.push_back(StepLine{tid, st, obs});
+    byTimeoutChoice.push_back(curByTimeout ? 1 : 0);
+    curByTimeout = false;
     return static_cast<long>(steps.size()) - 1;
   };
   auto addObs = [&](long idx, const std::string& o) {
@@ -396,6 +480,7 @@ std::string runSched(const std::vector<std::string>& t)
     {
       if (c.kind == "stop") { c.last = push(m.tid, "stopJoin", "-"); addObs(c.last, m.text); }
       else if (c.kind == "destroy") { c.last = push(m.tid, "tdDestroy", "-"); addObs(c.last, m.text); }
+      else if (c.kind == "flushdestroy") { c.last = push(m.tid, "tdOrphan", "-"); }
       else if (c.kind == "ioexit") { c.last = push(m.tid, "ioDrain", c.pendingObs.empty() ? "-" : c.pendingObs); }
       else addObs(c.last, m.text);
       st.pop_back();
@@ -403,15 +488,22 @@ std::string runSched(const std::vector<std::string>& t)
     else if (m.kind == 'K')
     {
       if (m.text.rfind("engineClose:", 0) == 0 && c.kind == "conn") c.last = push(m.tid, "connClose " + c.args[1], "-");
-      else if (m.text == "engine.stop" && c.kind == "destroy") c.last = push(m.tid, "tdStop", "-");
+      else if (m.text == "engine.stop" && (c.kind == "destroy" || c.kind == "flushdestroy")) c.last = push(m.tid, "tdStop", "-");
+      else if (m.text.rfind("probe:", 0) == 0)
+      {
+        auto f = m.text.substr(6);
+        auto k = f.find(':');
+        push(m.tid, "ioSyncCall " + f.substr(0, k), f.substr(k + 1) + ":" + f.substr(0, k));
+      }
     }
     else if (m.kind == 'C')
     {
       if (m.text == "cbdata" && c.kind == "flush")
       {
-        if (c.last >= 0) steps[c.last].step = "flushStep " + c.args[1] + " 1";
-        c.last = push(m.tid, "flushStep " + c.args[1] + " 0", "cb:" + c.args[1]);
+        // the loop section that found the buffer non-empty invokes the callback
+        if (c.last >= 0) { steps[c.last].step = "flushStep " + c.args[1] + " 1"; addObs(c.last, "cb:" + c.args[1]); }
       }
+      else if (m.text == "cbend" && c.kind == "flush") c.last = push(m.tid, "flushStep " + c.args[1] + " 0", "-");   // the callback returns
       else c.pendingObs = c.pendingObs.empty() ? m.text : c.pendingObs + ";" + m.text;   // gclose / destroyed: attached to the next step of this op
     }
   };
@@ -420,6 +512,8 @@ std::string runSched(const std::vector<std::string>& t)
     while (mi < ms.size() && ms[mi].at <= i) handleMark(ms[mi++]);
     if (i == tr.size()) break;
     const ds::Event& e = tr[i];
+    if (e.kind == ds::TIMEOUT) timeoutWoke[e.tid] = true;
+    else if (e.kind == ds::WAIT) timeoutWoke[e.tid] = false;
     auto& st = stack[e.tid];
     if (st.empty()) continue;
     Cur& c = st.back();
@@ -449,6 +543,12 @@ std::string runSched(const std::vector<std::string>& t)
       if (lockSync) s = c.nlock == 0 ? "tdBegin" : c.nlock == 1 ? "tdJoined" : "unexpected-lock";
       else s = "tdWake";
     }
+    else if (c.kind == "flushdestroy")
+    {
+      // releaseOwnFlushes (the FlushGuard destructor's section), then performTeardown as on any other non-I/O thread
+      if (lockSync) s = c.nlock == 0 ? "flushSelfDestruct " + c.args[1] : c.nlock == 1 ? "tdBegin" : c.nlock == 2 ? "tdJoined" : "unexpected-lock";
+      else s = "tdWake";
+    }
     else if (c.kind == "selfdestruct")
     {
       if (lockSync) s = c.nlock == 0 ? "ioSelfDestruct" : "unexpected-lock";
@@ -457,16 +557,17 @@ std::string runSched(const std::vector<std::string>& t)
     else if (c.kind == "fenceonly") { if (lockSync) s = c.nlock == 0 ? "tdBegin" : "unexpected-lock"; }
     if (lockSync) c.nlock++;
     if (s.empty()) continue;
+    curByTimeout = reacqSync && s.rfind("wake ", 0) == 0 && timeoutWoke[e.tid];
     c.last = push(e.tid, s, c.pendingObs.empty() ? "-" : c.pendingObs);
     c.pendingObs.clear();
   }
-  (void)iTdCv;
   std::string out = status + " |";
-  for (auto& s : steps)
+  for (std::size_t k = 0; k < steps.size(); ++k)
   {
+    auto& s = steps[k];
     std::string x = s.step;
     for (char& ch : x) if (ch == ' ') ch = ',';
-    out += " " + std::to_string(s.tid) + "," + x + "=>" + s.observed;
+    out += " " + std::to_string(s.tid) + (byTimeoutChoice[k] ? "!" : "") + "," + x + "=>" + s.observed;   // `!`: woken by the scheduler's TIMEOUT action
   }
   out += " | " + ds::choicesString() + " | destroyed=" + (w->destroyed.load() ? "1" : "0");
   if (!ok)
@@ -481,51 +582,78 @@ std::string runSched(const std::vector<std::string>& t)
 }
 
 // ------------------------------------------------------------------------------------------------------------------
-// storm <seed> <rounds> <threads>: real TcpEngine on loopback. Each round: start, a listener, worker threads hammer
-// addListener/connect/connectSync/send/close/receiveSync while another thread stops (and in half of the rounds destroys) the
-// transport. Facts checked: every call returns (watchdog), addListener returns ok or a definite error, no global callback is
-// invoked after stop() returned to its (non-callback) caller.
+// real engines on loopback
+std::shared_ptr<Transport> makeReal(bool udp)
+{
+  TransportConfig cfg;
+  cfg.protocol = udp ? Protocol::UDP : Protocol::TCP;
+  return udp ? Transport::udp(cfg) : Transport::tcp(cfg);
+}
+
+bool definite(TransportError c)
+{
+  return c == TransportError::ShuttingDown || c == TransportError::Timeout || c == TransportError::PeerClosed || c == TransportError::Cancelled ||
+         c == TransportError::Connect || c == TransportError::Socket || c == TransportError::Resolve || c == TransportError::Unknown;
+}
+
+// storm <seed> <rounds> <threads> [tcp|udp]: real engine on loopback. Round kinds (seeded):
+//   stop      workers (each holding its own reference) hammer addListener/connect/connectSync/send/close/receiveSync while the main
+//             thread calls stop(); every id handed out must have got its onClose by the time stop() has returned, no callback after it
+//   destroy   workers hold NO reference; they make counted synchronous calls only (receiveSync / connectSync / a flush with a data
+//             callback) through a raw pointer; once no new call can begin and every in-flight call is counted the main thread drops
+//             the last reference UNDER the parked calls: every call must return a definite result, ASan must stay quiet
+//   restart   stop(); start(); a second generation of workers; stop(): the queue must be reopened and closed again
+//   selfio    the sole owner is released inside a close callback on the REAL I/O thread while receivers are parked on other
+//             sessions: they must be NOTIFIED (return ShuttingDown, not their own Timeout), and Impl must be deleted by the thread
+//             epilogue (a sentinel captured by the callbacks dies with Impl)
 std::string runStorm(const std::vector<std::string>& t)
 {
   u64 seed = 0, rounds = 0, nthr = 0;
-  if (t.size() != 4 || !vh::parseNat(t[1], seed) || !vh::parseNat(t[2], rounds) || !vh::parseNat(t[3], nthr)) return "bad-op";
+  if ((t.size() != 4 && t.size() != 5) || !vh::parseNat(t[1], seed) || !vh::parseNat(t[2], rounds) || !vh::parseNat(t[3], nthr)) return "bad-op";
+  bool udp = t.size() == 5 && t[4] == "udp";
   std::mt19937_64 rng(seed);
-  int badResults = 0, lateCallbacks = 0, stuck = 0;
+  int badResults = 0, lateCallbacks = 0, stuck = 0, lostNotify = 0, leaked = 0, setupMiss = 0;
+  std::atomic<int> threw{0};
   long calls = 0, stranded = 0;
+  int kinds[4] = {0, 0, 0, 0};
   for (u64 r = 0; r < rounds; ++r)
   {
-    TransportConfig cfg;
-    cfg.protocol = Protocol::TCP;
-    auto tr = Transport::tcp(cfg);
+    int kind = static_cast<int>(r % 4);      // every kind in every run of >= 4 rounds
+    kinds[kind]++;
+    auto tr = makeReal(udp);
     std::atomic<bool> stopped{false};
     std::atomic<int> late{0};
     std::mutex idm;
     std::set<SessionId> closedIds;                 // ids that got the global onClose
     std::vector<SessionId> okIds;                  // ids connect()/connectSync returned ok for
+    std::atomic<bool> implGone{false};
+    auto sentinel = std::shared_ptr<void>(nullptr, [&implGone](void*) { implGone = true; });
+    std::shared_ptr<Transport>* holder = nullptr;  // selfio: the sole owner
+    std::atomic<SessionId> trigger{0};
+    std::atomic<bool> fired{false};
     auto cb = [&] { if (stopped.load()) late++; };
     tr->onAccept([&](SessionId, const TransportAddress&) { cb(); });
     tr->onConnect([&](SessionId, const TransportAddress&) { cb(); });
     tr->onData([&](SessionId, iora::core::BufferView, std::chrono::steady_clock::time_point) { cb(); });
-    tr->onClose([&](SessionId sid, const TransportErrorInfo&) { cb(); std::lock_guard<std::mutex> lk(idm); closedIds.insert(sid); });
+    tr->onClose([&, sentinel](SessionId sid, const TransportErrorInfo&) {
+      cb();
+      { std::lock_guard<std::mutex> lk(idm); closedIds.insert(sid); }
+      if (holder && trigger.load() == sid && *holder) { fired = true; holder->reset(); }     // last reference, on the I/O thread
+    });
+    sentinel.reset();
     if (!tr->start().isOk()) { badResults++; continue; }
     auto l0 = tr->addListener("127.0.0.1", 0, TlsMode::None);
     std::uint16_t port = 0;
     if (l0.isOk()) port = tr->getListenerAddress(l0.value()).port;
-    std::atomic<bool> go{true};
+    Transport* raw = tr.get();
     std::atomic<long> ncalls{0};
     std::atomic<int> bad{0};
-    std::vector<std::thread> th;
-    Transport* raw = tr.get();
-    bool destroy = (rng() & 1) != 0;
-    for (u64 k = 0; k < nthr; ++k)
-    {
-      std::uint64_t s2 = rng();
-      th.emplace_back([&, s2, raw] {
-        std::mt19937_64 r2(s2);
-        // worker threads keep their own reference unless this round destroys the transport under parked calls
-        std::shared_ptr<Transport> keep = tr;
-        SessionId last = 0;
-        while (go.load())
+    auto mixedWorker = [&](std::uint64_t s2, std::atomic<bool>& go, std::shared_ptr<Transport> keep) {
+      std::mt19937_64 r2(s2);
+      SessionId last = 0;
+      while (go.load())
+      {
+        try
         {
           switch (r2() % 6)
           {
@@ -540,53 +668,185 @@ std::string runStorm(const std::vector<std::string>& t)
             case 5: { std::uint8_t b[8]; std::size_t n = 8; if (last) { raw->setReadMode(last, ReadMode::Sync);
                       raw->receiveSync(last, b, n, std::chrono::milliseconds(5)); } break; }
           }
-          ncalls++;
         }
-      });
-    }
-    std::this_thread::sleep_for(std::chrono::milliseconds(2 + rng() % 6));
-    tr->stop();
-    stopped = true;
-    go = false;
+        catch (const std::exception&) { threw++; }     // e.g. future_error: a listener promise destroyed unfulfilled
+        ncalls++;
+      }
+      (void)keep;
+    };
     auto t0 = std::chrono::steady_clock::now();
-    for (auto& x : th) x.join();
-    if (std::chrono::steady_clock::now() - t0 > std::chrono::seconds(20)) stuck++;
-    (void)destroy;
+    if (kind == 0 || kind == 2)
     {
-      // every id handed to the application must have been closed by the time stop() has returned (and the callers are back)
-      std::lock_guard<std::mutex> lk(idm);
-      for (auto id : okIds) if (!closedIds.count(id)) stranded++;
+      for (int gen = 0; gen < (kind == 2 ? 2 : 1); ++gen)
+      {
+        std::atomic<bool> go{true};
+        std::vector<std::thread> th;
+        for (u64 k = 0; k < nthr; ++k) { std::uint64_t s2 = rng(); th.emplace_back([&, s2] { mixedWorker(s2, go, tr); }); }
+        std::this_thread::sleep_for(std::chrono::milliseconds(2 + rng() % 6));
+        tr->stop();
+        stopped = true;
+        go = false;
+        for (auto& x : th) x.join();
+        {
+          // every id handed to the application must have been closed by the time stop() has returned (and the callers are back)
+          std::lock_guard<std::mutex> lk(idm);
+          for (auto id : okIds) if (!closedIds.count(id)) stranded++;
+          okIds.clear();
+        }
+        lateCallbacks += late.load();
+        late = 0;
+        if (kind == 2 && gen == 0)
+        {
+          // restart: the queue is reopened (start() is not concurrent with any other call: the workers are back)
+          stopped = false;
+          if (!tr->start().isOk()) { badResults++; break; }
+          auto l1 = tr->addListener("127.0.0.1", 0, TlsMode::None);
+          if (!l1.isOk()) { badResults++; break; }
+          port = tr->getListenerAddress(l1.value()).port;
+        }
+      }
+      tr.reset();
     }
-    tr.reset();
+    else if (kind == 1)
+    {
+      // destruction under parked calls
+      std::mutex gm;
+      bool closing = false;
+      int inflight = 0;
+      tr->onData([&](SessionId, iora::core::BufferView, std::chrono::steady_clock::time_point) { std::this_thread::sleep_for(std::chrono::microseconds(200)); });
+      std::vector<std::thread> th;
+      for (u64 k = 0; k < nthr; ++k)
+      {
+        std::uint64_t s2 = rng();
+        th.emplace_back([&, s2, k] {
+          std::mt19937_64 r2(s2);
+          for (int it = 0; it < 200; ++it)
+          {
+            { std::lock_guard<std::mutex> lk(gm); if (closing) break; inflight++; }
+            SessionId sid = 5000 + k * 1000 + static_cast<SessionId>(it);
+            switch (r2() % 3)
+            {
+              case 0: { std::uint8_t b[8]; std::size_t n = 8;
+                        auto x = raw->receiveSync(sid, b, n, std::chrono::milliseconds(it % 4 == 0 ? 3 : 4000));
+                        if (x.isErr() && !definite(x.error().code)) bad++; break; }
+              case 1: { auto x = raw->connectSync("127.0.0.1", port, TlsMode::None, std::chrono::milliseconds(it % 3 == 0 ? 3 : 4000));
+                        if (x.isErr() && !definite(x.error().code)) bad++; break; }
+              case 2: { raw->setReadMode(sid, ReadMode::Sync);
+                        std::uint8_t d[3] = {1, 2, 3};
+                        { // buffer two chunks as the engine's data handler would (the session is unknown to the engine: nothing else touches it)
+                          std::lock_guard<std::mutex> lk(raw->_impl->syncMutex);
+                          auto it2 = raw->_impl->receiveBuffers.find(sid);
+                          if (it2 != raw->_impl->receiveBuffers.end()) { it2->second->data.assign(d, d + 3); it2->second->hasData = true; }
+                        }
+                        raw->setReadMode(sid, ReadMode::Async); break; }
+            }
+            ncalls++;
+            { std::lock_guard<std::mutex> lk(gm); inflight--; }
+          }
+        });
+      }
+      std::this_thread::sleep_for(std::chrono::milliseconds(2 + rng() % 6));
+      { std::lock_guard<std::mutex> lk(gm); closing = true; }
+      // wait until every call still in flight is counted by the gate (nobody is in an uncounted prefix)
+      for (int k = 0; k < 20000; ++k)
+      {
+        int inf;
+        { std::lock_guard<std::mutex> lk(gm); inf = inflight; }
+        std::size_t counted;
+        {
+          std::lock_guard<std::mutex> lk(raw->_impl->syncMutex);
+          counted = raw->_impl->activeReceives + raw->_impl->activeConnects + raw->_impl->activeFlushes;
+        }
+        if (static_cast<int>(counted) >= inf) break;
+        std::this_thread::sleep_for(std::chrono::microseconds(100));
+      }
+      tr.reset();                         // the last reference, under the parked calls
+      stopped = true;
+      for (auto& x : th) x.join();
+      lateCallbacks += late.load();
+    }
+    else
+    {
+      // sole owner released inside a close callback on the real I/O thread
+      holder = new std::shared_ptr<Transport>(std::move(tr));
+      SessionId victim = 0;
+      {
+        auto c = raw->connect("127.0.0.1", port, TlsMode::None);
+        if (c.isOk()) victim = c.value();
+      }
+      // A receiver that is NOT notified leaves by its own 6 s time-out (and then still reports ShuttingDown, because the fence is
+      // part of its wait predicate), a notified one within milliseconds: "slow" = returned more than 3 s after the trigger.
+      std::atomic<int> notified{0}, timedOut{0}, other{0};
+      std::atomic<long long> trigNs{0};
+      auto nowNs = [] { return std::chrono::duration_cast<std::chrono::nanoseconds>(std::chrono::steady_clock::now().time_since_epoch()).count(); };
+      std::vector<std::thread> th;
+      int nrecv = static_cast<int>(nthr);
+      for (int k = 0; k < nrecv; ++k)
+        th.emplace_back([&, k] {
+          std::uint8_t b[8]; std::size_t n = 8;
+          auto x = raw->receiveSync(9000 + static_cast<SessionId>(k), b, n, std::chrono::milliseconds(6000));
+          long long t1 = nowNs(), tg = trigNs.load();
+          bool slow = tg != 0 && t1 - tg > 3000000000LL;
+          if (x.isErr() && x.error().code == TransportError::ShuttingDown && !slow) notified++;
+          else if (x.isErr() && (x.error().code == TransportError::Timeout || x.error().code == TransportError::ShuttingDown)) timedOut++;
+          else other++;
+          ncalls++;
+        });
+      for (int k = 0; k < 4000; ++k)
+      {
+        std::size_t c;
+        { std::lock_guard<std::mutex> lk(raw->_impl->syncMutex); c = raw->_impl->activeReceives; }
+        if (static_cast<int>(c) >= nrecv) break;
+        std::this_thread::sleep_for(std::chrono::milliseconds(1));
+      }
+      std::this_thread::sleep_for(std::chrono::milliseconds(20));   // let the connect settle (either outcome closes `victim` below)
+      trigger = victim;
+      trigNs = nowNs();
+      if (victim) raw->close(victim);       // -> onClose on the I/O thread -> holder->reset() -> ~Transport there
+      for (auto& x : th) x.join();
+      if (fired.load())
+      {
+        lostNotify += timedOut.load();
+        badResults += other.load();
+        for (int k = 0; k < 5000 && !implGone.load(); ++k) std::this_thread::sleep_for(std::chrono::milliseconds(1));
+        if (!implGone.load()) leaked++;
+      }
+      else setupMiss++;
+      if (*holder) { holder->reset(); }     // the trigger never fired (setup): ordinary destruction
+      delete holder;
+      holder = nullptr;
+    }
+    if (std::chrono::steady_clock::now() - t0 > std::chrono::seconds(20)) stuck++;
     calls += ncalls.load();
     badResults += bad.load();
-    lateCallbacks += late.load();
   }
-  return "storm rounds=" + std::to_string(rounds) + " calls>0=" + (calls > 0 ? "1" : "0") + " bad=" + std::to_string(badResults) + " late=" +
-         std::to_string(lateCallbacks) + " stuck=" + std::to_string(stuck) + " stranded=" + std::to_string(stranded);
+  return std::string("storm proto=") + (udp ? "udp" : "tcp") + " rounds=" + std::to_string(rounds) + " kinds=" + std::to_string(kinds[0]) + "/" +
+         std::to_string(kinds[1]) + "/" + std::to_string(kinds[2]) + "/" + std::to_string(kinds[3]) + " calls>0=" + (calls > 0 ? "1" : "0") +
+         " bad=" + std::to_string(badResults) + " late=" + std::to_string(lateCallbacks) + " stuck=" + std::to_string(stuck) +
+         " stranded=" + std::to_string(stranded) + " lostNotify=" + std::to_string(lostNotify) + " leaked=" + std::to_string(leaked) +
+         " threw=" + std::to_string(threw.load()) + " setupMiss=" + std::to_string(setupMiss);
 }
 
-// cstorm <seed> <rounds> <threads>: real TcpEngine, worker threads call connect() in a tight loop (to a port nobody listens on)
-// while the main thread calls stop() a few hundred microseconds later. Every id for which connect() returned ok must have got
+// cstorm <seed> <rounds> <threads> [tcp|udp]: real engine, worker threads call connect() in a tight loop (to a port nobody listens
+// on) while the main thread calls stop() a few hundred microseconds later. Every id for which connect() returned ok must have got
 // its onClose by the time stop() has returned and the workers are back: an enqueue that lands after the shutdown drain took the
 // residual commands must be refused, not accepted into a queue nobody reads again.
 std::string runConnectStorm(const std::vector<std::string>& t)
 {
   u64 seed = 0, rounds = 0, nthr = 0;
-  if (t.size() != 4 || !vh::parseNat(t[1], seed) || !vh::parseNat(t[2], rounds) || !vh::parseNat(t[3], nthr)) return "bad-op";
+  if ((t.size() != 4 && t.size() != 5) || !vh::parseNat(t[1], seed) || !vh::parseNat(t[2], rounds) || !vh::parseNat(t[3], nthr)) return "bad-op";
+  bool udp = t.size() == 5 && t[4] == "udp";
   std::mt19937_64 rng(seed);
   long stranded = 0, total = 0, late = 0;
   int roundsHit = 0;
   for (u64 r = 0; r < rounds; ++r)
   {
-    TransportConfig cfg;
-    cfg.protocol = Protocol::TCP;
-    auto tr = Transport::tcp(cfg);
+    auto tr = makeReal(udp);
     std::mutex idm;
     std::set<SessionId> reported;
     std::atomic<bool> stopped{false};
     std::atomic<long> lateCb{0};
-    tr->onConnect([&](SessionId sid, const TransportAddress&) { if (stopped.load()) lateCb++; std::lock_guard<std::mutex> lk(idm); reported.insert(sid); });
+    tr->onConnect([&](SessionId, const TransportAddress&) { if (stopped.load()) lateCb++; });
     tr->onClose([&](SessionId sid, const TransportErrorInfo&) { if (stopped.load()) lateCb++; std::lock_guard<std::mutex> lk(idm); reported.insert(sid); });
     if (!tr->start().isOk()) return "storm-start-failed";
     std::atomic<bool> go{false};
@@ -596,7 +856,7 @@ std::string runConnectStorm(const std::vector<std::string>& t)
     for (u64 w = 0; w < nthr; ++w)
       th.emplace_back([&, w, raw] {
         while (!go.load()) std::this_thread::yield();
-        for (int i = 0; i < 200000; ++i)
+        for (int i = 0; i < (udp ? 3000 : 200000); ++i)
         {
           auto x = raw->connect("127.0.0.1", 1, TlsMode::None);
           if (!x.isOk()) break;            // the queue is closed: the engine has been stopped
@@ -618,22 +878,40 @@ std::string runConnectStorm(const std::vector<std::string>& t)
     late += lateCb.load();
     tr.reset();
   }
-  return "cstorm rounds=" + std::to_string(rounds) + " ids>0=" + (total > 0 ? "1" : "0") + " stranded=" + std::to_string(stranded) +
-         " roundsWithStranded=" + std::to_string(roundsHit) + " late=" + std::to_string(late);
+  return std::string("cstorm proto=") + (udp ? "udp" : "tcp") + " rounds=" + std::to_string(rounds) + " ids>0=" + (total > 0 ? "1" : "0") +
+         " stranded=" + std::to_string(stranded) + " roundsWithStranded=" + std::to_string(roundsHit) + " late=" + std::to_string(late);
 }
 
-// latch: deterministic variant. One loopback session is established; its shutdown-drain onClose callback issues a connect(),
-// which becomes a RESIDUAL command of the drain; when that residual connect's onClose(ShuttingDown) callback runs, the I/O
-// thread is held inside it while a second thread calls connect() and send(). The queue must already be closed: connect() must
-// return an error (or, if it returns ok, the id must still get its onClose), send() must return false.
-std::string runLatch()
+// latch tcp|udp: deterministic windows inside shutdownDrain of the real engine. One session is open. stop() is called.
+//   window A  the drain reports the open session (onClose, reason "shutdown"): the final process() is over, the queue is still
+//             OPEN. The I/O thread is held in that callback while a second thread (1) pushes a promise-bearing AddListener command
+//             through the engine's own enqueue() — it must be accepted and, because nobody will dispatch it, its promise must be
+//             FULFILLED (false) by the residual drain: exactly once, never left broken —, and the callback itself issues a connect()
+//             which becomes a residual command too.
+//   window B  the drain reports that residual connect (onClose ShuttingDown): the queue is CLOSED. The I/O thread is held again
+//             while the second thread calls connect() and send(): connect() must return an error (or, if ok, the id must still
+//             get its onClose), send() must return false, and a second promise-bearing command must be REFUSED.
+template <class Eng, class CmdT, class Lc>
+int pushPromise(detail::EngineBase* base, std::shared_future<bool>& fut)
 {
-  TransportConfig cfg;
-  cfg.protocol = Protocol::TCP;
-  auto tr = Transport::tcp(cfg);
+  auto* e = dynamic_cast<Eng*>(base);
+  if (!e) return -1;
+  auto ready = std::make_shared<std::promise<bool>>();
+  fut = ready->get_future().share();
+  Lc lc;
+  lc.id = 4242;
+  lc.addr = "127.0.0.1";
+  lc.port = 0;
+  return e->enqueue(CmdT::addListener(lc, ready)) ? 1 : 0;
+}
+
+std::string runLatch(const std::vector<std::string>& t)
+{
+  bool udp = t.size() == 2 && t[1] == "udp";
+  auto tr = makeReal(udp);
   std::mutex m;
   std::condition_variable cv;
-  bool windowOpen = false, t2Done = false;
+  bool windowA = false, aDone = false, windowB = false, bDone = false;
   std::set<SessionId> closed;
   std::atomic<int> accepted{0}, connected{0};
   std::atomic<bool> armed{false}, issued{false};
@@ -646,18 +924,23 @@ std::string runLatch()
     if (!armed.load()) return;
     if (e.code == TransportError::ShuttingDown && sid == idA.load() && idA.load() != 0)
     {
-      // residual connect being reported: hold the I/O thread here while the second thread runs
+      // window B: residual connect being reported; the queue is closed
       std::unique_lock<std::mutex> lk(m);
-      windowOpen = true;
+      windowB = true;
       cv.notify_all();
-      cv.wait_for(lk, std::chrono::seconds(5), [&] { return t2Done; });
+      cv.wait_for(lk, std::chrono::seconds(5), [&] { return bDone; });
       return;
     }
     bool exp = false;
     if (issued.compare_exchange_strong(exp, true))
     {
-      auto r = raw->connect("127.0.0.1", 1, TlsMode::None);   // issued from a close callback of the drain
+      auto r = raw->connect("127.0.0.1", 1, TlsMode::None);   // issued from a close callback of the drain: a residual command
       if (r.isOk()) idA = r.value();
+      // window A: the queue is still open
+      std::unique_lock<std::mutex> lk(m);
+      windowA = true;
+      cv.notify_all();
+      cv.wait_for(lk, std::chrono::seconds(5), [&] { return aDone; });
     }
   });
   if (!tr->start().isOk()) return "latch-start-failed";
@@ -665,23 +948,37 @@ std::string runLatch()
   if (!l0.isOk()) return "latch-listen-failed";
   std::uint16_t port = tr->getListenerAddress(l0.value()).port;
   auto c0 = tr->connect("127.0.0.1", port, TlsMode::None);
-  for (int k = 0; k < 1500 && !(accepted.load() >= 1 && connected.load() >= 1); ++k) std::this_thread::sleep_for(std::chrono::milliseconds(2));
-  if (!c0.isOk() || accepted.load() < 1 || connected.load() < 1) return "latch-setup-failed";
+  for (int k = 0; k < 1500 && !(connected.load() >= 1 && (udp || accepted.load() >= 1)); ++k) std::this_thread::sleep_for(std::chrono::milliseconds(2));
+  if (!c0.isOk() || connected.load() < 1) return "latch-setup-failed";
   armed = true;
-  bool connOk = false, sendOk = false, ran = false;
+  bool connOk = false, sendOk = false, ranA = false, ranB = false;
+  int pushA = -2, pushB = -2;
+  std::shared_future<bool> futA, futB;
   SessionId idB = 0;
+  detail::EngineBase* base = raw->_impl->engine.get();
   std::thread t2([&] {
     {
       std::unique_lock<std::mutex> lk(m);
-      if (!cv.wait_for(lk, std::chrono::seconds(5), [&] { return windowOpen; })) { t2Done = true; cv.notify_all(); return; }
+      if (!cv.wait_for(lk, std::chrono::seconds(5), [&] { return windowA; })) { aDone = bDone = true; cv.notify_all(); return; }
     }
-    ran = true;
+    ranA = true;
+    pushA = udp ? pushPromise<UdpEngine, UdpEngine::Cmd, UdpEngine::ListenerCfg>(base, futA)
+                : pushPromise<TcpEngine, TcpEngine::Command, TcpEngine::ListenerCfg>(base, futA);
+    {
+      std::unique_lock<std::mutex> lk(m);
+      aDone = true;
+      cv.notify_all();
+      if (!cv.wait_for(lk, std::chrono::seconds(5), [&] { return windowB; })) { bDone = true; cv.notify_all(); return; }
+    }
+    ranB = true;
     auto r = raw->connect("127.0.0.1", 1, TlsMode::None);
     if (r.isOk()) { connOk = true; idB = r.value(); }
     std::uint8_t b[2] = {1, 2};
     sendOk = raw->send(c0.value(), iora::core::BufferView{b, 2});
+    pushB = udp ? pushPromise<UdpEngine, UdpEngine::Cmd, UdpEngine::ListenerCfg>(base, futB)
+                : pushPromise<TcpEngine, TcpEngine::Command, TcpEngine::ListenerCfg>(base, futB);
     std::lock_guard<std::mutex> lk(m);
-    t2Done = true;
+    bDone = true;
     cv.notify_all();
   });
   tr->stop();
@@ -691,9 +988,53 @@ std::string runLatch()
     std::lock_guard<std::mutex> lk(m);
     strandedB = connOk && !closed.count(idB);
   }
+  // the promise accepted in window A: fulfilled exactly once with `false` (a broken promise = destroyed unfulfilled)
+  std::string pa = "none";
+  if (pushA == 1)
+  {
+    if (futA.wait_for(std::chrono::seconds(2)) != std::future_status::ready) pa = "pending";
+    else { try { pa = futA.get() ? "true" : "false"; } catch (const std::future_error&) { pa = "broken"; } }
+  }
   tr.reset();
-  return std::string("latch window=") + (ran ? "1" : "0") + " connectAccepted=" + (connOk ? "1" : "0") + " stranded=" + (strandedB ? "1" : "0") +
-         " sendAccepted=" + (sendOk ? "1" : "0");
+  return std::string("latch proto=") + (udp ? "udp" : "tcp") + " windowA=" + (ranA ? "1" : "0") + " window=" + (ranB ? "1" : "0") +
+         " promiseAccepted=" + std::to_string(pushA) + " promise=" + pa + " promiseAfterClose=" + std::to_string(pushB) +
+         " connectAccepted=" + (connOk ? "1" : "0") + " stranded=" + (strandedB ? "1" : "0") + " sendAccepted=" + (sendOk ? "1" : "0");
+}
+
+// ownerstop tcp|udp: OBSERVATION FC05b, outside the library's shared-ownership contract (a caller inside stop() holds a reference).
+// stop() is called through a NON-OWNING reference (here: the sole owner's own handle, `t->stop()` without a copy) and the close
+// callback the shutdown drain of that very stop fires releases the sole owner. ~Transport then runs on the I/O thread with
+// _running == false: it detaches the std::thread the stopper is joining, the thread epilogue deletes Impl (the engine, `_loop`)
+// and the Transport, and only then does the stopper's `_loop.join()` return - into freed objects (libstdc++ writes `_loop`'s id
+// after pthread_join; it is not instrumented, so ASan stays silent). Deterministic: the I/O thread deletes before it exits, the
+// join returns after it exited. A sentinel captured by the callback dies with Impl.
+std::string runOwnerStop(const std::vector<std::string>& t)
+{
+  bool udp = t.size() == 2 && t[1] == "udp";
+  auto* holder = new std::shared_ptr<Transport>(makeReal(udp));
+  Transport* raw = holder->get();
+  std::atomic<bool> implGone{false};
+  std::atomic<int> connected{0}, fired{0};
+  auto sentinel = std::shared_ptr<void>(nullptr, [&implGone](void*) { implGone = true; });
+  raw->onConnect([&](SessionId, const TransportAddress&) { connected++; });
+  raw->onClose([&, sentinel](SessionId, const TransportErrorInfo&) {
+    if (*holder) { fired++; holder->reset(); }     // the sole owner, released inside a close callback of the shutdown drain
+  });
+  sentinel.reset();
+  if (!raw->start().isOk()) return "ownerstop-start-failed";
+  auto l0 = raw->addListener("127.0.0.1", 0, TlsMode::None);
+  if (!l0.isOk()) return "ownerstop-listen-failed";
+  auto c0 = raw->connect("127.0.0.1", raw->getListenerAddress(l0.value()).port, TlsMode::None);
+  for (int k = 0; k < 1500 && connected.load() < 1; ++k) std::this_thread::sleep_for(std::chrono::milliseconds(2));
+  if (!c0.isOk() || connected.load() < 1) return "ownerstop-setup-failed";
+  raw->stop();                                      // through the non-owning reference
+  bool goneAtReturn = implGone.load();
+  for (int k = 0; k < 2000 && !implGone.load(); ++k) std::this_thread::sleep_for(std::chrono::milliseconds(1));
+  std::string out = std::string("ownerstop proto=") + (udp ? "udp" : "tcp") + " fired=" + std::to_string(fired.load()) +
+                    " implDeletedBeforeStopReturned=" + (goneAtReturn ? "1" : "0") + " implDeleted=" + (implGone.load() ? "1" : "0");
+  if (*holder) holder->reset();
+  delete holder;
+  return out;
 }
 
 std::string stepOp(const std::vector<std::string>& t)
@@ -702,7 +1043,8 @@ std::string stepOp(const std::vector<std::string>& t)
   if (t[0] == "sched") return runSched(t);
   if (t[0] == "storm") return runStorm(t);
   if (t[0] == "cstorm") return runConnectStorm(t);
-  if (t[0] == "latch") return runLatch();
+  if (t[0] == "latch") return runLatch(t);
+  if (t[0] == "ownerstop") return runOwnerStop(t);
   return "bad-op";
 }
 } // namespace
